@@ -182,6 +182,29 @@ void runCapacity(Instance& m) {
 		g_stats.add("iterator_removes", static_cast<double>(i / 2));
 	}
 	fillToCapacity(m, model, 2, "refill after removals");
+	// churn at full capacity: take exactly one task out (position rotates: first, middle, last ...) and append one, again
+	// and again - the free list then holds a single slot every time.  The tasks that stay must stay as they are (C08) and
+	// iteration must show exactly the appended-and-not-removed sequence (C10).
+	for (unsigned round = 0; round < 2 * CAP + 7 && model.size() == CAP; ++round) {
+		const unsigned victim = (round * 5 + round / 3) % CAP;
+		unsigned i = 0;
+		for (auto it = m.plan().begin(); it; ++it, ++i) if (i == victim) { it.remove(); break; }
+		model.erase(model.begin() + victim);
+		const unsigned o = (round * 11 + 5) % N, d = (round * 3 + 1) % N;
+		const uint32_t pay = 0xF00D0000u + round;
+		const bool withPay = round % 2 == 0;
+		const bool ok = withPay ? m.plan().changeWith(static_cast<StateID>(o), static_cast<StateID>(d), pay) : m.plan().change(static_cast<StateID>(o), static_cast<StateID>(d));
+		if (!ok) { viol("C10", "append-result|refused-with-room", "full plan, one task removed, append refused (round " + std::to_string(round) + ")"); break; }
+		model.push_back(T3{o, d, withPay, pay});
+		const std::vector<T3> got = readPlan(m);
+		if (!same(got, model)) {
+			const std::string msg = "round " + std::to_string(round) + " of remove-one/append-one at full capacity: removed position " + std::to_string(victim) + "; plan iterates as " + planStr(got).substr(0, 300) + " expected " + planStr(model).substr(0, 300);
+			viol("C10", "plan-content-after-churn-at-capacity", msg);
+			viol("C08", "unfired-tasks-left-or-reordered|churn-at-capacity", msg);
+			break;
+		}
+		g_stats.add("single_vacancy_rounds");
+	}
 	m.plan().clear();
 	model.clear();
 	expectPlan(m, model, "C10", "plan-not-empty-after-clear", "after clear()");
